@@ -156,6 +156,12 @@ def gen_case(g):
         rng = numpy.random.Generator(numpy.random.PCG64(seed)); rcls = "Generator"
     elif r < 7:
         rng = numpy.random.RandomState(seed); rcls = "RandomState"
+    elif r == 9 and pg.nvrnt > 1:
+        # a genuine PCG64 generator stepped back from a state whose output word is zero: the j-th uniform of the first meiosis
+        # call is exactly 0.0 (double or single precision) - a crossover there is legitimate only where xoprob[j] > 0
+        from pbmon.gen.advrng import crafted_generator
+        rng = crafted_generator("zero", seed); j = int(g.integers(1, 3 * pg.nvrnt))
+        rng.bit_generator.advance((1 << 128) - j); rcls = "crafted-zero-draw-at-offset"
     else:
         xo = pg.vrnt_xoprob
         pos = xo[xo > 0]
